@@ -7,7 +7,7 @@ func init() {
 		Trusted:     trustedCommon,
 	})
 	reg("C12", &PropSpec{
-		Rules:       []Rule{r("H1", RuleH1), r("IM1", RuleIM1), r("E3ii", RuleE3ii), r("N2", RuleN2), r("T1", RuleT1), r("RV1", RuleRV1), r("PA1", RulePA1)},
+		Rules:       []Rule{r("H1", RuleH1), r("IM1", RuleIM1), r("E3ii", RuleE3ii), r("N2", RuleN2), r("T1", RuleT1), r("RV1", RuleRV1), r("PA1", RulePA1), r("CP1", RuleCP1)},
 		Explanation: "Decided: an inherited property is inserted only when the object has no property with that key - an own property is an override error, an already inherited one is skipped (H1 on Unshift: each at most once); inheriting never stores through a pointer into the base type, nodes are inserted as value copies (IM1: bases left as declared); the per-run 'already expanded' memo must not carry a caller-owned accumulator (E3ii: known finding F13); ContentJSight only under a JSight notation test (N2); the allOf recursion is guarded by a visited set (T1); every loop over an interaction's responses visits all of them, so allOf in a later response is expanded whatever precedes it (RV1). Not decided: order of inherited properties, transitive completeness, shared grandchildren. Every per-kind expansion call and the walk over a node's children are unconditional up to nil/notation tests on the argument's own access path, user types first (PA1); the membership test guarding Unshift compares nothing but the key (H1).",
 		Trusted:     trustedCommon,
 	})
